@@ -69,6 +69,11 @@ Fixpoint join (sep : str) (l : list str) : str :=
 Definition fvar_lines (vals : list str) : list str :=
   map (fun g => lit "FVAR   " ++ join (lit "   ") g) (groups 7 vals).
 
+(* FVARs.__str__ (as repaired by 6dfd5f8): free variables that were defined in a '+filename' include file are left out BEFORE the
+   values are cut into lines of seven *)
+Definition fvars_written (fv : list (str * bool)) : list str :=
+  fvar_lines (map fst (filter (fun x => negb (snd x)) fv)).
+
 (* SFACTable.__repr__ (as repaired): runs of plain elements share a line, an explicit entry has its own *)
 Inductive sfac_entry := SPlain (e : str) | SExp (vals : list str) (* element and 14 numbers *).
 Fixpoint sfac_lines_aux (cur : list str) (l : list sfac_entry) : list str :=
